@@ -104,6 +104,7 @@ def regenerate(sp, lean_dir):
     pkg = os.path.dirname(os.path.abspath(sp.__file__))
     info = state_translate.regenerate(pkg, lean_dir)
     _GEN['info'] = info
+    _GEN['defaults'] = [getattr(sp.state, n) for n in NAMES]
     return {k: info[k] for k in ('prog', 'state_names', 'module_settings', 'write_sites', 'files_scanned', 'digest', 'notes')}
 
 
